@@ -2,6 +2,7 @@ package props
 
 import (
 	"context"
+	"errors"
 	"fmt"
 	"strings"
 	"sync"
@@ -34,6 +35,7 @@ type c06Case struct {
 	Panics     bool          // the handler of m1 panics when it is released (the router recovers it and Nacks)
 	Drain      bool          // scripted subscriber whose Close() drains: it returns (and closes the channel) only after the delivered messages were settled
 	StopFirst  bool          // Handler.Stop() of handler 1 is called (and Stopped() awaited) while m1 is inside its handler function, then Close arrives
+	FailSecond bool          // the second handler's Subscribe fails: Run returns an error from its start-up, the first handler keeps working
 	EarlyClose bool          // Close is called while Run is still subscribing the handlers (slow Subscribe calls), no messages
 	Conf       bool          // conformance run: internal hook events are recorded as well (RouterLifecycleImplTrace)
 }
@@ -116,6 +118,10 @@ func runC06(c *Ctx) error {
 		cases = append(cases, c06Case{Class: "random/" + src, Source: src, Label: c06Labels[c.Rng.Intn(len(c06Labels))], Second: c.Rng.Intn(3) == 0,
 			Closers: 1 + c.Rng.Intn(3), Handlers: 1 + c.Rng.Intn(3), Msgs: 1 + c.Rng.Intn(3), Timeout: 3 * time.Second, Repeat: c.Rng.Intn(3) == 0})
 	}
+	// Run failed half-way (the second handler could not subscribe): the first handler works on; a Close has to wait for its
+	// invocation like any other (here: until CloseTimeout, then an error)
+	cases = append(cases, c06Case{Class: "close-after-failed-run/scripted", Source: "scripted", Label: "handler", Closers: 1, Handlers: 2, Msgs: 1, Slow: 700 * time.Millisecond, Timeout: 250 * time.Millisecond, FailSecond: true})
+	cases = append(cases, c06Case{Class: "close-after-failed-run/scripted", Source: "scripted", Label: "handler", Closers: 2, Handlers: 2, Msgs: 1, Slow: 500 * time.Millisecond, Timeout: 150 * time.Millisecond, FailSecond: true})
 	// conformance of the implementation-shaped model: fixed shape (1 handler, scripted source, 2 messages, <= 2 closers)
 	nconf := c.Pick(24, 400)
 	for i := 0; i < nconf; i++ {
@@ -127,7 +133,11 @@ func runC06(c *Ctx) error {
 	runs := make([]*tr.Run, len(cases))
 	confRuns := make([]*tr.Run, len(cases))
 	for i, cs := range cases {
-		runs[i] = T.NewRun(cs.Class, map[string]any{"nh": cs.Handlers, "expectsubclose": !cs.StopFirst, "timeout": int64(cs.Timeout / time.Microsecond)})
+		nh := cs.Handlers
+		if cs.FailSecond {
+			nh = 1 // only the first handler ever holds a subscription
+		}
+		runs[i] = T.NewRun(cs.Class, map[string]any{"nh": nh, "expectsubclose": !cs.StopFirst && !cs.FailSecond, "timeout": int64(cs.Timeout / time.Microsecond)})
 		runs[i].Key = fmt.Sprintf("%+v/%d", cs, i)
 		if cs.Conf {
 			confRuns[i] = TC.NewRun("conformance", nil)
@@ -203,6 +213,11 @@ func c06RunC(r *tr.Run, rc *tr.Run, cs c06Case) (gateReached bool) {
 		gc = gochannel.NewGoChannel(gochannel.Config{}, nil)
 	}
 	subs := []*scripted.Sub{}
+	var pubCloses, subscribeCalls, firstH int32
+	wantPubs := cs.Handlers
+	if cs.FailSecond {
+		wantPubs = 1
+	}
 	handles := map[int]*message.Handler{}
 	mname := func(h, k int) string {
 		if cs.Conf {
@@ -215,10 +230,27 @@ func c06RunC(r *tr.Run, rc *tr.Run, cs c06Case) (gateReached bool) {
 		h := h
 		hname := fmt.Sprintf("%sh%d", prefix, h)
 		pub := scripted.NewPub("pub")
-		pub.OnClose = func() { r.Emit("pubclose") }
+		pub.OnClose = func() {
+			if h%2 == 1 {
+				time.Sleep(12 * time.Millisecond) // a publisher that flushes: its Close takes a moment
+			}
+			r.Emit("pubclose") // (Close is about to return)
+			atomic.AddInt32(&pubCloses, 1)
+		}
 		var sub message.Subscriber
 		if cs.Source == "scripted" {
 			s := scripted.NewSub("sub")
+			if cs.FailSecond {
+				// whichever handler Run subscribes second (the order is the router's) fails, after a while
+				s.SubscribeFn = func(string) error {
+					if atomic.AddInt32(&subscribeCalls, 1) == 1 {
+						atomic.StoreInt32(&firstH, int32(h))
+						return nil
+					}
+					time.Sleep(150 * time.Millisecond)
+					return errors.New("scripted subscribe failure")
+				}
+			}
 			if cs.EarlyClose {
 				s.OnSubscribe = func(string) { time.Sleep(25 * time.Millisecond) }
 			}
@@ -240,7 +272,7 @@ func c06RunC(r *tr.Run, rc *tr.Run, cs c06Case) (gateReached bool) {
 			mu.Unlock()
 			r.Emit("hstart", "m", m)
 			emitC("hstart", "m", m)
-			if cs.Label == "handler" && msg.UUID == m1 {
+			if cs.Label == "handler" && (msg.UUID == m1 || cs.FailSecond) {
 				<-release
 			}
 			r.Emit("hend", "m", m)
@@ -257,10 +289,20 @@ func c06RunC(r *tr.Run, rc *tr.Run, cs c06Case) (gateReached bool) {
 	go func() {
 		defer close(runDone)
 		err := router.Run(verifhook.WithName(ctx, prefix+"run"))
+		if cs.FailSecond && err != nil {
+			r.Emit("runfail")
+			return
+		}
 		r.Emit("runret", "ok", err == nil, "t", now(), "states", states())
 		emitC("runret")
 	}()
-	if cs.EarlyClose {
+	if cs.FailSecond {
+		// Run is inside the (slow, failing) Subscribe call of its second handler; the first one holds its subscription
+		deadline := time.Now().Add(HangBound)
+		for atomic.LoadInt32(&subscribeCalls) < 2 && time.Now().Before(deadline) {
+			time.Sleep(time.Millisecond)
+		}
+	} else if cs.EarlyClose {
 		time.Sleep(8 * time.Millisecond) // Run is inside the (slow) Subscribe call of its first handler
 	} else {
 		select {
@@ -283,7 +325,7 @@ func c06RunC(r *tr.Run, rc *tr.Run, cs c06Case) (gateReached bool) {
 	var ew sync.WaitGroup
 	for h := 1; h <= cs.Handlers; h++ {
 		for k := 1; k <= cs.Msgs; k++ {
-			if h > 1 && k > 1 {
+			if h > 1 && k > 1 || cs.FailSecond && h != int(atomic.LoadInt32(&firstH)) {
 				continue
 			}
 			m := mname(h, k)
@@ -305,7 +347,7 @@ func c06RunC(r *tr.Run, rc *tr.Run, cs c06Case) (gateReached bool) {
 					_ = gc.Publish(fmt.Sprintf("t%d", h), msg)
 				}
 			}(h, msg)
-			if k == 1 && h == 1 {
+			if k == 1 && (h == 1 || cs.FailSecond) {
 				// let m1 reach its label before anything else happens
 				if gate != nil {
 					gateReached = gate.Arrived(300 * time.Millisecond)
@@ -422,7 +464,11 @@ func c06RunC(r *tr.Run, rc *tr.Run, cs c06Case) (gateReached bool) {
 				n++
 			}
 		}
-		if cs.Source != "scripted" || n >= len(subs) {
+		want := len(subs)
+		if cs.FailSecond {
+			want = 0 // (the handler was ended through its context: its subscriber is not closed by the router)
+		}
+		if (cs.Source != "scripted" || n >= want) && int(atomic.LoadInt32(&pubCloses)) >= wantPubs {
 			break
 		}
 		time.Sleep(2 * time.Millisecond)
